@@ -331,8 +331,10 @@ class FLRun:
     def key(self) -> tuple:
         pos = []
         for i, t in enumerate(self.stepper.tasks):
+            fw = getattr(t, '_fut_waiter', None)
             pos.append((self.pos[i] if not t.done() else ('done',),
                         bool(getattr(t, '_must_cancel', False)),
+                        fw is not None and fw.cancelled(),
                         self.stepper.timer_fires[i] - self.base_fires[i],
                         self.stepper._timer_handle(i) is not None))
         return (self.file_state(), tuple(self.view()['status']), tuple(pos))
